@@ -107,6 +107,9 @@ class M:
             self.value = []
             self.times = []
             self.count = 0
+            self.evicted = None
+            self.evicted_at = None
+            self.cleared_now = False
         self.pre = None  # value at the start of the cycle (sets/dict keys) for delta expectations
         self.erased_now = set()
 
@@ -213,6 +216,18 @@ class M:
         if k == "tick":
             self.mark(t)
             return True
+        if k == "wclear":
+            self.value = []
+            self.times = []
+            self.count = 0
+            self.evicted = None
+            self.cleared_now = True
+            if "v" in op:
+                self.value.append(op["v"])
+                self.times.append(t)
+                self.count = 1
+            self.mark(t)
+            return True
         if k == "push" and isinstance(self.s[2], (list, tuple)):
             # duration window: entries older than the range are pruned when a new value is pushed
             self.value.append(op["v"])
@@ -226,8 +241,10 @@ class M:
         if k == "push":
             self.value.append(op["v"])
             self.count += 1
+            self.evicted = None
             if len(self.value) > self.s[2]:
-                self.value.pop(0)
+                self.evicted = self.value.pop(0)     # the element this tick pushed out (readable as removed_value)
+            self.evicted_at = t
             self.mark(t)
             return True
         if k == "S":
